@@ -20,6 +20,8 @@ Accept(t) == LET r == TLog[t] IN
                                   /\ (r.ranks2[i] = r.ranks2[j] => r.us[i] = r.us[j]))
      [] r.kind = "pareto" -> Clause(t, "dominated-iff-strictly-better-everywhere", r.out = ParetoDef(r.pts, r.ori))
      [] r.kind = "box" -> Clause(t, "box-statistics-of-finite-values", BoxOK(r))
+     [] r.kind = "violin" -> LET b == BoxDef(r.col, 500, 1000) IN       \* coverages 50% and 100%: Q0, Q25, median, Q75, Q100
+                             Clause(t, "violin-statistics-of-finite-values", b.defined => r.stats = <<b.wlo, b.blo, b.med, b.bhi, b.whi>>)
 ASSUME \A t \in 1..Len(TLog) : Accept(t) \/ TRUE
 ASSUME PrintT(<<"VALIDATED", Len(TLog)>>)
 ==============================================================================
